@@ -287,11 +287,18 @@ def gen_hw_cascade(rng):
             "    subtree:\n    - name: PE[0..%d]\n      local:\n      - name: Buf\n        class: Buffet\n        attributes:\n          width: 32\n          depth: 64\n" % (freq, bw, npe))
     for i in range(n):
         arch += "      - name: FU%d\n        class: Compute\n        attributes:\n          type: %s\n" % (i, "mul" if ops[i] == "*" else "add")
+    # a second configuration of the same shape whose root level has the same name and another clock
+    cfgs = ["Accel"]
+    if rng.random() < 0.5:
+        freq2 = rng.choice([f for f in (2, 3, 5, 7) if f != freq])
+        arch += arch.split("architecture:\n", 1)[1].replace("  Accel:\n", "  Accel2:\n").replace("clock_frequency: %d\n" % freq, "clock_frequency: %d\n" % freq2)
+        cfgs.append("Accel2")
     b = "bindings:\n"
     descs = []
     for i, o in enumerate(outs):
-        descs.append({"cfg": "Accel", "loop": list(ranks), "space": list(st[o]["space"]), "comps": []})
-        b += "  %s:\n  - config: Accel\n    prefix: tmp/%s\n" % (o, o)
+        cfg = rng.choice(cfgs)
+        descs.append({"cfg": cfg, "loop": list(ranks), "space": list(st[o]["space"]), "comps": []})
+        b += "  %s:\n  - config: %s\n    prefix: tmp/%s\n" % (o, cfg, o)
         t = "BCDE"[i] if rng.random() < 0.7 else o
         r = ranks[-1]
         b += "  - component: MainMemory\n    bindings:\n    - tensor: %s\n      rank: %s\n      type: payload\n      format: default\n" % (t, r)
